@@ -613,6 +613,37 @@ func ruleGaugePair(r *Run) {
 				}
 				return true
 			})
+			if !uses {
+				// through a helper that returns the labelled gauge
+				var viaHelper func(info *types.Info, x ast.Node, depth int) bool
+				viaHelper = func(info *types.Info, x ast.Node, depth int) bool {
+					found := false
+					ast.Inspect(x, func(m ast.Node) bool {
+						if id, ok := m.(*ast.Ident); ok && info.Uses[id] == gauge {
+							found = true
+						}
+						if c, ok := m.(*ast.CallExpr); ok && depth < 3 {
+							if g, ok := calleeObj(info, c).(*types.Func); ok {
+								if gd := r.P.Funcs[g]; gd != nil && gd.Body != nil {
+									ast.Inspect(gd.Body, func(k ast.Node) bool {
+										if rs, ok := k.(*ast.ReturnStmt); ok {
+											for _, res := range rs.Results {
+												if viaHelper(gd.Info(), res, depth+1) {
+													found = true
+												}
+											}
+										}
+										return true
+									})
+								}
+							}
+						}
+						return !found
+					})
+					return found
+				}
+				uses = viaHelper(info, se.X, 0)
+			}
 			if uses {
 				if count[fn.Name] == nil {
 					count[fn.Name] = map[string]int{}
@@ -640,6 +671,8 @@ func ruleGaugePair(r *Run) {
 	r.Check("G6", "pair", count["websocket.(*handlerWithMetrics).HandleConnect"]["Inc"] == 1 && count["websocket.(*handlerWithMetrics).HandleDisconnect"]["Dec"] == 1, 0,
 		"the gauge has exactly one increment site (connect) and one decrement site (disconnect)")
 	// on every path of the two methods
+	labelVars := map[string]*types.Var{} // label value (canonical) -> the receiver field it is read from
+	sides := map[string]map[string]bool{}
 	for _, q := range []struct{ name, op string }{{"websocket.(*handlerWithMetrics).HandleConnect", "Inc"}, {"websocket.(*handlerWithMetrics).HandleDisconnect", "Dec"}} {
 		fn := r.modelFunc(q.name)
 		if fn == nil {
@@ -648,17 +681,26 @@ func ruleGaugePair(r *Run) {
 		for _, path := range r.Paths(fn) {
 			r.at(&path)
 			n := 0
-			for _, ev := range path.Events {
+			incAt := -1
+			var labels map[string]bool
+			for ei, ev := range path.Events {
 				if ev.Kind == EvCall && ev.Call != nil {
 					if se, ok := ast.Unparen(ev.Call.Fun).(*ast.SelectorExpr); ok && se.Sel.Name == q.op && strings.Contains(r.P.Canon(fn, se.X), "global:websocket.wsConnectedClients") {
 						n++
+						incAt = ei
 						vals := map[string]bool{}
 						collect := func(holder *Func, x ast.Node) {
 							ast.Inspect(x, func(n ast.Node) bool {
 								if cl, ok := n.(*ast.CompositeLit); ok {
 									for _, el := range cl.Elts {
 										if kv, ok := el.(*ast.KeyValueExpr); ok {
-											vals[r.P.Canon(holder, kv.Value)] = true
+											c := r.P.Canon(holder, kv.Value)
+											vals[c] = true
+											if vs, ok := ast.Unparen(kv.Value).(*ast.SelectorExpr); ok {
+												if sel, ok := holder.Info().Selections[vs]; ok && sel.Kind() == types.FieldVal {
+													labelVars[c] = sel.Obj().(*types.Var)
+												}
+											}
 										}
 									}
 								}
@@ -675,13 +717,76 @@ func ruleGaugePair(r *Run) {
 							}
 							return true
 						})
-						r.CheckT("G6", fn.Name+":labels", vals["recv.publicEndpoint"] && vals["recv.appKey"] && len(vals) == 2, ev.Pos, &path, "the gauge is labelled with the connection's endpoint and app key on both sides (%v)", vals)
+						// the series is named by state of this connection's decorator only (its endpoint and the client's
+						// app key), one field per label
+						ownFields := len(vals) == 2
+						for c := range vals {
+							if !strings.HasPrefix(c, "recv.") || labelVars[c] == nil {
+								ownFields = false
+							}
+						}
+						r.CheckT("G6", fn.Name+":labels", ownFields, ev.Pos, &path, "the gauge is labelled with the connection's endpoint and app key, both fields of the decorator (%v)", vals)
+						labels = vals
+						if sides[q.op] == nil {
+							sides[q.op] = vals
+						}
 					}
 				}
 			}
 			r.CheckT("G6", fn.Name+":every-path", n == 1, fn.Body.Pos(), &path, "%s on every path exactly once (%d)", q.op, n)
+			// the fields that name the series have their final value when the gauge is incremented: a label
+			// written after the increment makes connect and disconnect address different series
+			if q.op == "Inc" && incAt >= 0 {
+				for _, ev := range path.Events[incAt+1:] {
+					if ev.Kind != EvAssign {
+						continue
+					}
+					for _, l := range ev.Lhs {
+						if c := r.P.Canon(ev.Fn, l); labels[c] {
+							r.CheckT("G6", fn.Name+":labels-set-before-increment["+strings.TrimPrefix(c, "recv.")+"]", false, ev.Pos, &path,
+								"%s is assigned after the connected-clients gauge was incremented with it as a label: the decrement on disconnect addresses another series and both drift", c)
+						}
+					}
+				}
+			}
 		}
 	}
+	if len(sides["Inc"]) > 0 && len(sides["Dec"]) > 0 {
+		same := len(sides["Inc"]) == len(sides["Dec"])
+		for c := range sides["Inc"] {
+			if !sides["Dec"][c] {
+				same = false
+			}
+		}
+		r.Check("G6", "labels-agree", same, 0, "increment and decrement name the series by the same fields (%v / %v)", sides["Inc"], sides["Dec"])
+	}
+	// … and nothing but connect gives those fields a value afterwards
+	byVar := map[*types.Var]string{}
+	for c, v := range labelVars {
+		byVar[v] = c
+	}
+	for _, f := range r.P.All {
+		if f.Body == nil || f.root().Name == "websocket.(*handlerWithMetrics).HandleConnect" {
+			continue
+		}
+		ast.Inspect(f.Body, func(nd ast.Node) bool {
+			as, ok := nd.(*ast.AssignStmt)
+			if !ok {
+				return true
+			}
+			for _, l := range as.Lhs {
+				if se, ok := ast.Unparen(l).(*ast.SelectorExpr); ok {
+					if sel, ok := f.Info().Selections[se]; ok && sel.Kind() == types.FieldVal {
+						if c, isLabel := byVar[sel.Obj().(*types.Var)]; isLabel {
+							r.Check("G6", f.Name+":label-written["+strings.TrimPrefix(c, "recv.")+"]", false, as.Pos(), "%s, a label of the connected-clients gauge, is written outside connect", c)
+						}
+					}
+				}
+			}
+			return true
+		})
+	}
+	r.Floor("G6", "label fields of the connected-clients gauge", len(byVar), 2)
 }
 
 // ---------------------------------------------------------------------------------------------
@@ -1092,6 +1197,72 @@ func rulePanicContainment(r *Run) {
 			}
 		}
 		r.Check("G2", f.Name+":recovered-panic-reported", reported, f.Body.Pos(), "%s recovers a panic raised while a client message is handled and reports it as its error result: the caller ends the connection through the normal disconnect path (a swallowed panic leaves the connection running on inconsistent state)", f.Name)
+	}
+	// recover() stops a panic only when the deferred function calls it itself: in a helper of the deferred
+	// function it returns nil and the panic carries on
+	deferredNamed := map[*types.Func]bool{}
+	for _, f := range r.P.All {
+		if f.Body == nil {
+			continue
+		}
+		ast.Inspect(f.Body, func(nd ast.Node) bool {
+			if ds, ok := nd.(*ast.DeferStmt); ok {
+				if g, ok := calleeObj(f.Info(), ds.Call).(*types.Func); ok {
+					deferredNamed[g] = true
+				}
+			}
+			return true
+		})
+	}
+	for _, f := range r.P.All {
+		if f.Body == nil || f.Lit != nil {
+			continue // (literals are visited with the function that holds them)
+		}
+		var stack []ast.Node
+		ast.Inspect(f.Body, func(nd ast.Node) bool {
+			if nd == nil {
+				stack = stack[:len(stack)-1]
+				return true
+			}
+			stack = append(stack, nd)
+			c, ok := nd.(*ast.CallExpr)
+			if !ok {
+				return true
+			}
+			id, ok := ast.Unparen(c.Fun).(*ast.Ident)
+			if !ok || id.Name != "recover" {
+				return true
+			}
+			if _, isB := f.Info().Uses[id].(*types.Builtin); !isB {
+				return true
+			}
+			// the innermost function around the call: a literal that is the operand of a defer, or the declared
+			// function when that one is deferred by name somewhere
+			direct := false
+			var lit *ast.FuncLit
+			li := -1
+			for k := len(stack) - 2; k >= 0; k-- {
+				if l, ok := stack[k].(*ast.FuncLit); ok {
+					lit, li = l, k
+					break
+				}
+			}
+			switch {
+			case lit != nil:
+				if li >= 2 {
+					if call, ok := stack[li-1].(*ast.CallExpr); ok && ast.Unparen(call.Fun) == ast.Expr(lit) {
+						if _, ok := stack[li-2].(*ast.DeferStmt); ok {
+							direct = true
+						}
+					}
+				}
+			case f.Obj != nil:
+				direct = deferredNamed[f.Obj]
+			}
+			r.Check("G2", f.Name+":recover-called-by-the-deferred-function", direct, c.Pos(),
+				"recover() in %s is not called by a deferred function itself (it sits in a helper that the deferred function calls, or in a function that is never deferred): there it returns nil and the panic is not stopped", f.Name)
+			return true
+		})
 	}
 	r.Floor("G2", "recovering functions on the message path", nRec, 1)
 }
